@@ -268,22 +268,6 @@ func verifModel_strings_LastIndex(s, sub string) int {
 	return -1
 }
 
-func verifModel_strings_Count(s, sub string) int {
-	if len(sub) == 0 {
-		panic("verif model: strings.Count with empty separator is not modelled")
-	}
-	n := 0
-	for i := 0; i+len(sub) <= len(s); {
-		if s[i:i+len(sub)] == sub {
-			n++
-			i += len(sub)
-		} else {
-			i++
-		}
-	}
-	return n
-}
-
 func verifIsASCIISpace(c byte) bool {
 	return c == ' ' || c == '\t' || c == '\n' || c == '\v' || c == '\f' || c == '\r'
 }
@@ -377,4 +361,19 @@ func verifModel_utf8_RuneCountInString(s string) int {
 		i += sz
 	}
 	return n
+}
+
+
+// IndexRune for ASCII-only s (every call site in soy passes a literal ASCII set): r matches only
+// as a single byte; utf8.RuneError and invalid runes cannot occur in an ASCII string.
+func verifModel_strings_IndexRune(s string, r rune) int {
+	for i := 0; i < len(s); i++ {
+		if s[i] >= 0x80 {
+			panic("verif model: strings.IndexRune with non-ASCII s is not modelled")
+		}
+		if rune(s[i]) == r {
+			return i
+		}
+	}
+	return -1
 }
